@@ -129,6 +129,13 @@ def gen_texts(seed, tier):
               '[rows for r in rows][0] + rows', 'rows if rows else rows + rows', '(rows + rows)[0]', 'lst + [r.item for r in rows]',
               'lst + lst', 'lst * 2', 'rows[0] == rows.pop()', '(rows := 1)', '(description := 1)', '(field := 1)', '(txn := 1)',
               '[(rows := r) for r in rows]', '[r for rows in rows]', '[description for description in rows]']
+    # string subscripts on every receiver with attribute-like keys (a convenience `txn["x"]` resolved through getattr would
+    # hand out context methods / internals)
+    ctx_names = ['get_function', 'from_transaction', 'description', 'amount', 'variables', 'data_sources', 'field', 'source',
+                 'location', 'month', '_fn_contains', '__class__', '__dict__', '__init__', '__slots__', 'functions', 'transactions']
+    for r in ['txn', 'field', 'TXN', 'Field', 'rows[0]', 'description', 'rows', 'threshold']:
+        for a in ctx_names:
+            texts += [f'{r}["{a}"]', f'{r}[" {a.upper()} "]', f'trim({r}["{a}"])', f'{r}["{a}"]()', f'"%s" % {r}["{a}"]']
     # node kinds x positions, depth 2
     for s in NODE_SNIPPETS:
         for c in CONTEXTS:
@@ -145,11 +152,33 @@ def gen_texts(seed, tier):
     return texts
 
 
+SENTINELS = ['w', 'x', 'y', 'z', 'q', 'dflt', 'seen', 'description', 'amount', 'len(rows)', 'rows[0].item', 'field.memo', 'txn.amount',
+             'threshold', 'lst', 'month', 'contains("STARBUCKS")']
+BINDERS = ['(w := description) and 1', '(x := 5) > 1', '(seen := rows) and 1', '(q := txn.amount) > 0', '(amount := 0) == 0',
+           '(description := "HACK") == "HACK"', '(threshold := 99) > 1', '(month := 13) > 1', '[y for y in rows] and 1',
+           'any(z == 1 for z in [1, 2])', '(lst := [1]) and 1']
+
+
 def run_chunks(texts, workers=4, chunk=600):
-    chunks = [texts[i:i + chunk] for i in range(0, len(texts), chunk)]
+    # every chunk (= one interpreter) starts with the sentinels, then the name-binding payloads, then the stream, and ends with
+    # the sentinels again: an evaluation may only read the transaction / fields / rows / variables, never what an EARLIER
+    # evaluation bound
+    chunks = [SENTINELS + BINDERS + texts[i:i + chunk] + SENTINELS for i in range(0, len(texts), chunk)]
     with ThreadPoolExecutor(max_workers=workers) as ex:
         outs = list(ex.map(lambda c: run_impl(IMPL, {'texts': c}, timeout=1800)['results'], chunks))
-    return [r for o in outs for r in o]
+    res = []
+    for o in outs:
+        n = len(SENTINELS)
+        first, last = o[:n], o[-n:]
+        for a, b in zip(first, last):
+            ka = (a.get('load'), a.get('eval'), a.get('str'))
+            kb = (b.get('load'), b.get('eval'), b.get('str'))
+            if ka != kb:
+                b = dict(b)
+                b['state_leak'] = {'expression': a['text'], 'fresh': ka, 'after_other_evaluations': kb}
+                res.append(b)
+        res += o[n:-n]
+    return res
 
 
 OTHER_INTERNALS = ['<class ', '<function ', '<built-in', '<module', '<bound method', '<method', '<slot wrapper', '<attribute ']
@@ -160,6 +189,8 @@ def oracle(r):
     bad = []
     if r.get('events'):
         bad.append(('C03/audit-event', r['events'][:3]))
+    if r.get('state_leak'):
+        bad.append(('C03/evaluation-state-leaks-between-evaluations', r['state_leak']))
     if r.get('wrote_output'):
         bad.append(('C03/wrote-to-stdout-or-stderr', r['wrote_output'][:80]))
     if r.get('cached_after_reject'):
